@@ -60,7 +60,7 @@ Section Indices.
     - intros [= <-]. split; auto.
     - destruct (index_of x ids) as [i|] eqn:E; [|discriminate]. destruct (indices_of xs ids) as [r|]; [|discriminate].
       intros [= <-]. destruct (IH r eq_refl) as [-> F]. split.
-      + cbn [map]. unfold idx at 1. now rewrite E.
+      + cbn [map]. f_equal. unfold idx. now rewrite E.
       + constructor; auto. congruence.
   Qed.
   Lemma indices_of_found xs : Forall (fun x => index_of x ids <> None) xs -> indices_of xs ids = Some (map idx xs).
@@ -182,7 +182,7 @@ Theorem frozen_flags_wired : forall (g : graph R) frozen Ne iv,
 Proof.
   intros g frozen Ne iv stp Hd. destruct (step_lengths g frozen Ne iv) as [Hn Hf]. fold stp in Hn, Hf.
   destruct (integ_call_wired (st_live stp) (st_T stp) (st_nus stp) (st_M stp) (st_fr stp) Hd Hn Hf) as (f & _ & E).
-  eexists. split; [exact E|]. cbn [c_ids c_fr c_nus]. repeat split. apply step_flags.
+  eexists. split; [exact E|]. cbn [c_ids c_fr c_nus]. split; [reflexivity|]. split; [apply step_flags|reflexivity].
 Qed.
 
 (** the wiring found in the source (frozen5 <- frozen[3]) does not have this property *)
